@@ -196,7 +196,7 @@ V("c05-right-crop-blind", "C05", TX, "        self._text = [self.plain[:max_offs
 V("c05-expand-tabs-forgets-length", "C05", TX, "        self._text = [result.plain]\n        self._length = len(self.plain)\n        self._spans[:] = result._spans", "        self._text = [result.plain]\n        self._spans[:] = result._spans", "R5.1")
 V("c05-tokens-offset", "C05", TX, "            offset += len(content)\n        self._length = offset", "            offset += len(content) + 0 * len(style or '')\n        self._length = offset + 1", "R5.1")
 V("c05-pad-left-shift", "C05", TX, "            self.plain = f\"{character * count}{self.plain}\"\n            _Span = Span\n            self._spans[:] = [\n                _Span(start + count, end + count, style)", "            self.plain = f\"{character * count}{self.plain}\"\n            _Span = Span\n            self._spans[:] = [\n                _Span(start + count - 1, end + count - 1, style)", "R5.2")
-V("c05-append-text-late-length", "C05", TX, "        _Span = Span\n        text_length = self._length\n        if text.style is not None:\n            self._spans.append(_Span(text_length, text_length + len(text), text.style))\n        self._text.append(text.plain)", "        _Span = Span\n        self._length += len(text)\n        text_length = self._length\n        if text.style is not None:\n            self._spans.append(_Span(text_length, text_length + len(text), text.style))\n        self._text.append(text.plain)", "R5.")
+V("c05-append-text-late-length", "C05", TX, "        _Span = Span\n        text_length = self._length\n        # a list, not a generator: text may be self\n        text_spans = [", "        _Span = Span\n        self._length += len(text)\n        text_length = self._length\n        # a list, not a generator: text may be self\n        text_spans = [", "R5.")
 V("c05-stylize-sets-plain", "C05", TX, "        self._spans.append(Span(start, min(length, end), style))\n", "        self._spans.append(Span(start, min(length, end), style))\n        self.plain = self.plain.rstrip()\n", "R5.3")
 V("c05-divide-no-sort", "C05", TX, "            line_spans.sort(key=get_order)\n", "", "R5.4")
 V("c05-trim-reversed", "C05", TX, "            for span in self._spans\n            if span.start < max_offset\n        ]\n\n    def pad(", "            for span in reversed(self._spans)\n            if span.start < max_offset\n        ]\n\n    def pad(", "R5.4")
@@ -436,3 +436,7 @@ V("c10-progress-stop-line-before-release", "C10", PR, "                # flush t
 V("c20-config-interpolates", "C20", "rich/theme.py", "configparser.ConfigParser(interpolation=None)", "configparser.ConfigParser()", "R20.7")
 V("c20-config-inline-comments", "C20", "rich/theme.py", "configparser.ConfigParser(interpolation=None)", "configparser.ConfigParser(interpolation=None, inline_comment_prefixes=(\"#\", \";\"))", "R20.7")
 V("c20-benign-raw-config-parser", "C20", "rich/theme.py", "configparser.ConfigParser(interpolation=None)", "configparser.RawConfigParser()", None)
+V("c05-getitem-negative-index", "C05", TX, "            if slice < 0:\n                slice += len(self.plain)\n                if slice < 0:\n                    raise IndexError(\"Text index out of range\")\n", "", "R5.9")
+V("c05-getitem-no-base-style", "C05", TX, "                self.plain[offset],\n                style=self.style,\n", "                self.plain[offset],\n", "R5.9")
+V("c05-append-text-lazy-self-extend", "C05", TX, "        self._spans.extend(text_spans)\n        self._length += len(text)\n        return self\n\n    def append_tokens", "        self._spans.extend(\n            _Span(start + text_length, end + text_length, style)\n            for start, end, style in text._spans\n        )\n        self._length += len(text)\n        return self\n\n    def append_tokens", "R5.10")
+V("c05-benign-getitem-range-normalise", "C05", TX, "            if slice < 0:\n                slice += len(self.plain)\n                if slice < 0:\n                    raise IndexError(\"Text index out of range\")\n            return get_text_at(slice)\n", "            index = range(len(self.plain))[slice]\n            return get_text_at(index)\n", None)
